@@ -702,17 +702,69 @@ pub fn live_userinfo(ctx: &Ctx) {
 
 pub fn run(ctx: &Ctx) {
     use_empty_trust_store();
+    ctx.shrink_iters.store(200, std::sync::atomic::Ordering::Relaxed);
     ctx.set_rule("(a) proptest-generated exchanges against a hand-written loopback HTTP/1.1 server: request (generated model message + payload 0 B-256 KiB, MiB in the big sub-run, from a fragmented blocking or async source) x client configuration (0-4 custom x- headers, optional Basic credentials incl. non-ASCII and ':' in the password, optional timeout) x ipp:// or http:// target with generated path/query x blocking or async client x server script (content-length / chunked with generated chunk sizes / close-delimited framing, generated write fragmentation, generated response + trailing data encoded by the reference encoder; in the big sub-run the trailing data exceeds 1 MiB too). Oracle: the server recorded exactly one POST with the expected request-target, Host, Content-Type, every custom header, Authorization (own base64) and a de-framed body equal to to_bytes() ++ payload; the client returned exactly the server's response and trailing data. (b) failure scripts: every 4xx/5xx status with a valid success response as body, connection cut after every k in [0,L) body bytes under each framing with FIN and RST, stalled server with a 400 ms timeout answering after 1600 ms - all must give Err. (c) N simultaneous sends through one client (8 quick / 32 thorough), responses echo the request-id. Non-trivial = chunked or close-delimited framing, >=3 write fragments, payload >= 64 KiB, or a failure/concurrency script; distinct by script hash.");
     ctx.assume("TCP may coalesce the server's write fragments; the timeout sub-check uses wall-clock with x4 margin (Ok after the stall is the only violation)");
     let (shards, per) = ctx.tier.pick((16, 60), (16, 1500));
     run_prop(ctx, "exchange", shards, per, || exchange(false), judge_exchange, ex_json);
     let (shards, per) = ctx.tier.pick((8, 2), (16, 8));
     run_prop(ctx, "exchange-big-payload", shards, per, || exchange(true), judge_exchange, ex_json);
+    // (a') a failed exchange first, then a good one on the same thread with the same kind of client
+    ctx.append_rule(" (a') recovery: a generated exchange that FAILS (HTTP 4xx/5xx, connection cut after k body bytes with FIN or RST, or nobody listening) carrying the generated request and payload, immediately followed on the same thread by a generated good exchange with the same kind of client, which is judged completely as in (a): nothing of the failed attempt may reach the wire or the result of the next one.");
+    let (shards, per) = ctx.tier.pick((16, 25), (16, 600));
+    run_prop(ctx, "exchange-after-failure", shards, per, || (0u8..4, any::<u16>(), exchange(false), exchange(false)), judge_recovery, |c| json!({"recovery": {"kind": c.0, "k": c.1, "failed": ex_json(&c.2), "next": ex_json(&c.3)}}));
     run_failure_scripts(ctx);
     run_concurrency(ctx);
 }
 
+/// One exchange that fails, then a good one on the same thread.
+pub fn judge_recovery(c: &(u8, u16, Exchange, Exchange), p: &Probe) -> Judge {
+    let (kind, k, failed, next) = c;
+    let body = response_bytes(&failed.resp);
+    let mut script = Script::ok(body.clone());
+    match kind % 4 {
+        0 => script.status = 400 + (*k % 200),
+        1 | 2 => {
+            // inside header+attributes (a cut inside the trailing data is not an error of send())
+            let attrs_len = body.len() - failed.resp.payload.len();
+            script.cut_after = Some(*k as usize % attrs_len.max(1));
+            script.rst = kind % 4 == 2;
+            script.framing = if k % 2 == 0 { Framing::ContentLength } else { Framing::Chunked(vec![7, 3]) };
+        }
+        _ => {}
+    }
+    p.label(["recovery after an HTTP error status", "recovery after a cut (FIN)", "recovery after a cut (RST)", "recovery after a refused connection"][(kind % 4) as usize]);
+    let (req, _) = build_request(&failed.req, failed.async_payload && next.async_client);
+    let out = if kind % 4 == 3 {
+        // a port nobody listens on: bind, read the number, close
+        let port = std::net::TcpListener::bind("127.0.0.1:0").and_then(|l| l.local_addr()).map(|a| a.port()).map_err(|e| Fail::new("infra/port", format!("{e}")))?;
+        let uri = format!("http://127.0.0.1:{port}/ipp/print");
+        let cfg = ClientCfg { uri: &uri, headers: &failed.headers, auth: failed.auth.as_ref(), timeout: Some(Duration::from_secs(20)) };
+        if next.async_client { send_async(&cfg, req) } else { send_blocking(&cfg, req) }
+    } else {
+        let s2 = script.clone();
+        let server = Server::start(Arc::new(move |_r| s2.clone()), None).map_err(|e| Fail::new("infra/server", format!("{e}")))?;
+        let uri = format!("http://127.0.0.1:{}/ipp/print", server.port);
+        let cfg = ClientCfg { uri: &uri, headers: &failed.headers, auth: failed.auth.as_ref(), timeout: Some(Duration::from_secs(20)) };
+        if next.async_client { send_async(&cfg, req) } else { send_blocking(&cfg, req) }
+    };
+    p.extra_eval(1);
+    match out {
+        SendOutcome::Ok { .. } => return Err(Fail::new("C11/failure-accepted", format!("{} client: a scripted failure (kind {}, k={k}) was returned as success", if next.async_client { "async" } else { "blocking" }, kind % 4))),
+        SendOutcome::Panic(pn) => return Err(Fail::new(format!("C11/{}", panic_sig(&pn)), format!("send() panicked on a scripted failure: {pn}"))),
+        SendOutcome::Err(_) => {}
+    }
+    p.nontrivial(hash64(c));
+    judge_exchange(next, &Probe { ctx: p.ctx, counting: false }).map_err(|f| Fail::new(format!("{}/after-a-failed-send", f.sig), format!("the exchange right after a failed send on the same thread: {}", f.msg)))
+}
+
 pub fn replay(ctx: &Ctx, sub: &str, case: &Value) -> Judge {
+    if let Some(r) = case.get("recovery") {
+        let failed = ex_from_json(r.get("failed").unwrap_or(&Value::Null)).ok_or_else(|| Fail::new("bad-replay", "exchange"))?;
+        let next = ex_from_json(r.get("next").unwrap_or(&Value::Null)).ok_or_else(|| Fail::new("bad-replay", "exchange"))?;
+        let c = (r.get("kind").and_then(|x| x.as_u64()).unwrap_or(0) as u8, r.get("k").and_then(|x| x.as_u64()).unwrap_or(0) as u16, failed, next);
+        return judge_recovery(&c, &Probe { ctx, counting: false });
+    }
     if sub.starts_with("exchange") {
         let e = ex_from_json(case).ok_or_else(|| Fail::new("bad-replay", "exchange"))?;
         return judge_exchange(&e, &Probe { ctx, counting: false });
